@@ -322,6 +322,9 @@ pub struct FlushLock { _p: () }
 impl FlushLock {
     #[verifier::external_body]
     pub fn lock(&self) -> () { unimplemented!() }
+    // parking_lot::Mutex::try_lock: may find the lock taken (another retirement pass in flight)
+    #[verifier::external_body]
+    pub fn try_lock(&self) -> Option<()> { unimplemented!() }
 }
 pub struct RetirementQueue {
     pub pending: PendingLock,
